@@ -190,4 +190,32 @@ theorem pipeline_lastOk_unicode (env : Env) (o : Opts) (hsep : o.sep = .unicode)
       · simp only [Option.some.injEq] at h; subst h
         exact refinesAll_lastOk _ _ r1 hend hfirst
 
+/-- the Unicode separator fails only if an opportunity is not a char boundary of the stripped text -/
+theorem findWordsUnicode_total (env : Env) (line : Text)
+    (hb : ∀ o ∈ env.opps (stripAnsi line), o < blen (stripAnsi line) →
+      ∃ l r, stripAnsi line = l ++ r ∧ blen l = o) :
+    ∃ ws, findWordsUnicode env line = some ws := by
+  unfold findWordsUnicode usedOpps
+  have key : ∀ l : List Nat, (∀ o ∈ l, ∃ a b, stripAnsi line = a ++ b ∧ blen a = o) →
+      ∃ os, filterOpps (stripAnsi line) l = some os := by
+    intro l
+    induction l with
+    | nil => intro _; exact ⟨[], rfl⟩
+    | cons o os ih =>
+      intro h
+      obtain ⟨a, b, e1, e2⟩ := h o (by simp)
+      obtain ⟨r, hr⟩ := ih (fun x hx => h x (by simp [hx]))
+      have hk : ∃ k, keepOpp (stripAnsi line) o = some k := by
+        unfold keepOpp charBefore?
+        rw [e1, ← e2, splitBytes?_append]
+        exact ⟨_, rfl⟩
+      obtain ⟨k, hk⟩ := hk
+      exact ⟨if k then o :: r else r, by simp [filterOpps, hk, hr]⟩
+  obtain ⟨os, hos⟩ := key ((env.opps (stripAnsi line)).filter (· < blen (stripAnsi line))) (by
+    intro o ho
+    obtain ⟨h1, h2⟩ := List.mem_filter.mp ho
+    exact hb o h1 (by simpa using h2))
+  simp only [hos]
+  exact ⟨_, rfl⟩
+
 end TW
